@@ -114,6 +114,54 @@ def poly_key_str(k):
         return repr(k)
 
 
+def atom_children(a):
+    """the argument keys of a compound atom"""
+    k = a[0]
+    if k in ('sym', 'str', 'opaque'):
+        return []
+    if k in ('fn', 'init', 'fstr'):
+        return [x[2] if (isinstance(x, tuple) and x and x[0] == 'kw') else x for x in a[-1]]
+    if k in ('cmp', 'un'):
+        return list(a[2:])
+    if k == 'proj':
+        return [a[2]]
+    return [x for x in a[1:] if isinstance(x, tuple)]
+
+
+def poly_leaves(p, kinds=('sym',), out=None, depth=0):
+    """all atoms of the given kinds reachable in p (through the arguments of compound atoms)"""
+    out = set() if out is None else out
+    if depth > 16:
+        return out
+    for a in p.atoms():
+        if a[0] in kinds:
+            out.add(a)
+        for x in atom_children(a):
+            try:
+                poly_leaves(Poly(dict(x)), kinds, out, depth + 1)
+            except (TypeError, ValueError):
+                pass
+    return out
+
+
+def small_helper_inliner(lib, prefixes, api_prefixes=('for', 'to', 'is', 'print', 'compare', 'convert', 'get', 'set', 'operator'), max_stmts=12):
+    """inliner for SymExec: a call to a small loop-free function of the library that is not part of the public conversion /
+    query vocabulary (a private helper extracted from, or forwarding for, the function under analysis) is summarised in place"""
+    from .ir import walk_stmts
+
+    def inliner(name, nargs):
+        short = name.split('::')[-1]
+        if not name.startswith(tuple(prefixes)) or short.startswith(tuple(api_prefixes)) or short[:1].isupper():
+            return None
+        for g in lib.fns(name):
+            if len(g.params) == nargs and g.body:
+                ss = list(walk_stmts(g.body))
+                if len(ss) <= max_stmts and not any(x.k == 'loop' for x in ss):
+                    return g
+        return None
+    return inliner
+
+
 def is_pow2(n):
     return n > 0 and n & (n - 1) == 0
 
@@ -745,6 +793,8 @@ class SymExec:
                     st.env[tgt.a[0]] = v
                     if tgt.a[0] in self.out_params:
                         st.effects = st.effects + ((tgt.a[0], v.key()),)
+                    elif tgt.a[0] in getattr(self, 'trace_locals', ()):
+                        st.effects = st.effects + (('local:' + tgt.a[0], v.key()),)
                 elif tgt.k == 'init' and tgt.a[0] in ('tuple', 'list'):
                     self._unpack(st, tgt, v)
                 else:
